@@ -184,12 +184,7 @@ def gen_sim_case(rng, quick=True):
     if not any(it["k"] == "probe" for it in items):
         items.append({"k": "probe", "id": nid, "probe": gen_probe(rng, B), "dur": 0.0})
     case["items"] = items
-    for _ in range(10):
-        case["tree"] = gen_tree(rng, list(range(len(items))))
-        if multi_ok(case, case["tree"]):
-            break
-    else:
-        case["tree"] = list(range(len(items)))
+    case["tree"] = gen_tree(rng, list(range(len(items))))     # groups may have a negative total (Offset members)
     case["override"] = gen_override(rng, B)
     case["asarray"] = rng.random() < 0.4
     return case
@@ -211,28 +206,6 @@ def gen_tree(rng, idx, depth=0, in_multi=False):
             out.append(idx[i])
             i += 1
     return out
-
-
-def multi_ok(case, tree):
-    """MultiOperator refuses a negative total duration (Offset members): keep every group total >= 0,
-    also the partial total of the first two members when the group is built with `*`"""
-    def total(nd):
-        if isinstance(nd, int):
-            return Fraction(case["items"][nd]["dur"])
-        return sum((total(x) for x in nd[1]), Fraction(0))
-
-    def ok(nd):
-        if isinstance(nd, int):
-            return True
-        if not all(ok(x) for x in nd[1]):
-            return False
-        if nd[0] == "multi":
-            if total(nd) < 0:
-                return False
-            if len(nd[1]) >= 2 and total(nd[1][0]) + total(nd[1][1]) < 0:
-                return False
-        return True
-    return all(ok(nd) for nd in tree)
 
 
 # ------------------------------------------------------------------ implementation driver
@@ -339,7 +312,7 @@ def build_tree(case, objs, tree=None, multis=None):
                 slot = len(multis)
                 multis.append(None)
                 members = build_tree(case, objs, sub, multis)
-                if how == "mul" and len(members) >= 2 and not isinstance(members[0], operator.MultiOperator):
+                if how == "mul" and len(members) >= 2:
                     m = members[0] * members[1]
                     for x in members[2:]:
                         m = m * x
@@ -759,14 +732,8 @@ def gen_mod_case(rng):
     if not any(it["cls"] in ("ADC", "Adc", "Probe") for it in items):
         items.append({"cls": "ADC", "id": 3006, "dur_arg": None})
     case = {"items": items}
-    for _ in range(10):
-        case["tree"] = gen_tree(rng, list(range(len(items))))
-        if multi_ok({"items": [{"dur": mdur(it)} for it in items]}, case["tree"]):
-            break
-    else:
-        case["tree"] = list(range(len(items)))
-    case["top_multi"] = rng.random() < 0.12 and multi_ok({"items": [{"dur": mdur(it)} for it in items]},
-                                                          [("multi", list(range(len(items))), "ctor")])
+    case["tree"] = gen_tree(rng, list(range(len(items))))
+    case["top_multi"] = rng.random() < 0.12
     if case["top_multi"]:
         case["tree"] = list(range(len(items)))
     r = rng.random()
@@ -1045,8 +1012,6 @@ def run_expand_stream(ctx, n, stats):
                 case["params"][name] = rng.choice(vals)
         if not case["params"]:
             case["params"]["T2"] = [50.0] * np_
-        # input class of a defect found by this stream (see known_findings.json): array att, batched flip angles, expand=True
-        att_class = expand and ns > 1 and isinstance(case["params"].get("att"), list)
         try:
             why = expand_case_disagrees(case)
         except Exception as e:
@@ -1054,8 +1019,7 @@ def run_expand_stream(ctx, n, stats):
         done += 1
         ctx.count(("expand", repr(case)), nontrivial=True)
         if why:
-            sig = {"call": "modify", "att": "array", "T": "batched", "expand": True} if att_class else \
-                {"stream": "expand", "why": why[:30], "expand": expand}
+            sig = {"stream": "expand", "why": why[:30], "expand": expand}
             if repr(sig) in reported:
                 continue                         # one replay per input class and run
             reported.add(repr(sig))
@@ -1177,6 +1141,19 @@ def grouping_probe(name):
             if got != ref:
                 return "acquisition time of the group built as %s is %s, as a list %s" % (label, got, ref)
         return None
+    if name == "att_grid":
+        # regression (fixed e0354df): array att on a batched T adds a new axis: value[i, j] = Z0 for alpha_i * att_j
+        al, k = np.array([45.0, 150.0]), np.array([0.8, 0.5])
+        v = np.asarray(epg.simulate(epg.modify([epg.T(al, 90, duration=0.25), epg.Adc("Z0")], T2=50.0, att=k)))
+        ref = np.cos(np.deg2rad(al[:, None] * k[None, :]))
+        if v.shape != (1, 2, 2) or np.abs(v[0].real - ref).max() > 1e-9:
+            return "modify(att=[0.8,0.5]) on T([45,150]): Z0 has shape %s, values %s; expected the grid cos(alpha_i*att_j) = %s" % (
+                v.shape, v.real.tolist(), ref.tolist())
+        try:
+            epg.simulate(epg.modify([epg.T(al, 90, duration=0.25), epg.Adc("Z0")], T2=50.0, att=[0.8, 0.8, 0.8]))
+        except Exception as e:
+            return "modify(att of size 3) on a T of batch size 2 raised %s: %s" % (type(e).__name__, e)
+        return None
     if name == "multi_explicit_duration":
         m = operator.MultiOperator([epg.T(90, 90), epg.S(1)], duration=5.0)
         t1 = [float(t) for t in epg.get_adc_times([m, epg.ADC])]
@@ -1189,6 +1166,7 @@ def grouping_probe(name):
 
 GROUPING_SIGNATURES = {
     "mul_offset": {"call": "Operator.__mul__", "first_members": "Offset", "partial_total": "negative"},
+    "att_grid": {"call": "modify", "att": "array", "T": "batched", "expand": True},
     "multi_explicit_duration": {"call": "MultiOperator", "duration": "explicit", "timing": "ignored"},
 }
 
